@@ -18,6 +18,9 @@
  *                       submitted writes in order; every operation sees done once, error 0, no
  *                       unwritten data; cleanup handlers once each, after the handlers; everything
  *                       completes (watchdog: a lost re-arm strands an operation).
+ *  --mode=siblings (C14) two channels on one descriptor with operations of one direction parked on both; one
+ *                       channel is stopped, the other's operations must still complete when the descriptor
+ *                       becomes ready (they share the stream and its event source).
  *  --mode=sources (C15, C16)
  *                       1-2 read sources and 1-2 write sources on one socket, each on its own target
  *                       queue, moving a coded stream in both directions against the same kind of peer;
@@ -491,10 +494,194 @@ static void run_src_trial(int idx)
 	/* queues, buffers and t stay allocated: a late (wrong) handler invocation must find them */
 }
 
+/* =================================================================== mode=siblings */
+/* Two channels on one descriptor (two dispatch_io_create calls, dispatch_io_create_with_io, or a channel next to the
+ * convenience API) share the descriptor's stream and its event source. Operations of one direction are parked on both
+ * (empty pipe for reads, full pipe for writes); one channel is stopped; the other one's operations must still complete
+ * once the descriptor becomes ready. */
+enum { SIB_TWO_CREATES, SIB_WITH_IO, SIB_CONVENIENCE, SIB_N };
+static const char *const sib_names[] = { "two-creates-one-descriptor", "create_with_io", "channel+convenience" };
+typedef struct sibtrial {
+	int idx, setup, dir, hq_kind, victim;
+	int fd_lib, fd_peer;
+	dispatch_io_t ch[2];
+	dispatch_queue_t hq, cq;
+	dop_t ops[8]; int owner[8]; int nops;
+	_Atomic uint64_t events, victim_done, survivor_done;
+	_Atomic uint32_t cleanups[2];
+	uint8_t *ref; size_t ref_len;
+	uint64_t salt;
+	vf_profile_t prof;
+} sibtrial_t;
+
+static void sib_h(sibtrial_t *t, dop_t *op, int owner, bool done, dispatch_data_t d, int err)
+{
+	if (atomic_load(&op->dones)) vf_violation("C14:siblings:handler-after-done", "handler invoked again after done (two channels on one descriptor)");
+	if (op->kind == K_READ && d) {
+		dispatch_data_apply(d, ^bool(dispatch_data_t rgn, size_t off, const void *p, size_t len) {
+			(void)rgn; (void)off;
+			if (op->got_len + len <= op->len) memcpy(op->got + op->got_len, p, len);
+			op->got_len += len;
+			return true;
+		});
+	}
+	if (done) {
+		op->err = err;
+		if (op->kind == K_WRITE) op->rest = d ? dispatch_data_get_size(d) : 0;
+		op->done_stamp = vf_stamp();
+		vf_progress();
+		atomic_fetch_add(&op->dones, 1);
+		atomic_fetch_add_explicit(owner == t->victim ? &t->victim_done : &t->survivor_done, 1, memory_order_release);
+	}
+}
+
+static void run_sib_trial(int idx)
+{
+	sibtrial_t *t = calloc(1, sizeof(*t));
+	t->idx = idx;
+	vf_rng_t rr, *r = &rr;
+	vf_rng_seed(r, vf_opts.seed, (uint64_t)idx * 6007 + 83);
+	t->salt = vf_rnd(r) | 1;
+	vf_perturb_draw(r, &t->prof);
+	t->setup = (int)vf_rnd_n(r, SIB_N);
+	t->dir = (int)vf_rnd_n(r, 2);
+	t->hq_kind = (int)vf_rnd_n(r, 3);
+	t->victim = t->setup == SIB_CONVENIENCE ? 0 : (int)vf_rnd_n(r, 2);   /* the convenience channel cannot be stopped by the application */
+	int use_socket = (int)vf_rnd_n(r, 2);
+	int fds[2];
+	if (use_socket) { if (socketpair(AF_UNIX, SOCK_STREAM | SOCK_CLOEXEC, 0, fds)) vf_fail("socketpair"); }
+	else { if (pipe(fds)) vf_fail("pipe"); }
+	if (t->dir == K_READ) { t->fd_lib = fds[0]; t->fd_peer = fds[1]; } else { t->fd_lib = fds[1]; t->fd_peer = fds[0]; }
+	t->hq = t->hq_kind == 0 ? dispatch_queue_create("vf.sib.handlers", DISPATCH_QUEUE_SERIAL)
+		: t->hq_kind == 1 ? dispatch_queue_create("vf.sib.handlers", DISPATCH_QUEUE_CONCURRENT) : dispatch_get_global_queue(0, 0);
+	t->cq = dispatch_queue_create("vf.sib.cleanup", DISPATCH_QUEUE_SERIAL);
+	/* writes need a full descriptor to park on */
+	size_t prefill = 0;
+	if (t->dir == K_WRITE) {
+		fcntl(t->fd_lib, F_SETFL, fcntl(t->fd_lib, F_GETFL) | O_NONBLOCK);
+		char z[4096]; memset(z, 0x7e, sizeof(z));
+		for (;;) { ssize_t w = write(t->fd_lib, z, sizeof(z)); if (w <= 0) break; prefill += (size_t)w; }
+		for (;;) { ssize_t w = write(t->fd_lib, z, 1); if (w <= 0) break; prefill += (size_t)w; }
+	}
+	vf_watch_begin("duplex:siblings:stopped-channel-completes", 0);
+	t->ch[0] = dispatch_io_create(DISPATCH_IO_STREAM, t->fd_lib, t->cq, ^(int e) { (void)e; atomic_fetch_add(&t->cleanups[0], 1); atomic_fetch_add_explicit(&t->events, 1, memory_order_release); });
+	if (t->setup == SIB_TWO_CREATES) t->ch[1] = dispatch_io_create(DISPATCH_IO_STREAM, t->fd_lib, t->cq, ^(int e) { (void)e; atomic_fetch_add(&t->cleanups[1], 1); atomic_fetch_add_explicit(&t->events, 1, memory_order_release); });
+	else if (t->setup == SIB_WITH_IO) t->ch[1] = dispatch_io_create_with_io(DISPATCH_IO_STREAM, t->ch[0], t->cq, ^(int e) { (void)e; atomic_fetch_add(&t->cleanups[1], 1); atomic_fetch_add_explicit(&t->events, 1, memory_order_release); });
+	int nch = t->setup == SIB_CONVENIENCE ? 1 : 2;
+	if (!t->ch[0] || (nch == 2 && !t->ch[1])) vf_fail("dispatch_io_create failed");
+	/* channel creation is asynchronous, and a channel made from one that has been stopped in the meantime legitimately fails with
+	 * that channel's error: let both creations finish (a barrier runs after them) before anything is stopped */
+	for (int c = 0; c < nch; c++) {
+		dispatch_semaphore_t sem = dispatch_semaphore_create(0);
+		dispatch_io_barrier(t->ch[c], ^{ dispatch_semaphore_signal(sem); });
+		dispatch_semaphore_wait(sem, DISPATCH_TIME_FOREVER);
+		dispatch_release(sem);
+	}
+	/* operations: 1-3 on each channel, interleaved; the survivor's lengths add up to ref_len */
+	int n0 = (int)vf_rnd_range(r, 1, 3), n1 = (int)vf_rnd_range(r, 1, 3);
+	size_t surv_total = 0;
+	int i0 = 0, i1 = 0;
+	while (i0 < n0 || i1 < n1) {
+		int owner = (i1 >= n1 || (i0 < n0 && vf_rnd_n(r, 2))) ? 0 : 1;
+		if (owner == 0) i0++; else i1++;
+		dop_t *op = &t->ops[t->nops]; t->owner[t->nops] = owner; op->idx = t->nops++;
+		op->kind = t->dir; op->len = vf_rnd_n(r, 3) == 0 ? vf_rnd_range(r, 1, 64) : vf_rnd_range(r, 64, 20000);
+		if (owner != t->victim) { op->base = surv_total; surv_total += op->len; }
+	}
+	t->ref_len = surv_total; t->ref = malloc(surv_total); fill(t->ref, t->salt, surv_total);
+	uint64_t nvictim = 0, nsurv = 0;
+	for (int i = 0; i < t->nops; i++) {
+		dop_t *op = &t->ops[i]; int owner = t->owner[i];
+		if (owner == t->victim) nvictim++; else nsurv++;
+		int conv = t->setup == SIB_CONVENIENCE && owner == 1;
+		if (t->dir == K_READ) {
+			op->got = malloc(op->len);
+			if (conv) dispatch_read(t->fd_lib, op->len, t->hq, ^(dispatch_data_t d, int e) { sib_h(t, op, owner, true, d, e); });
+			else dispatch_io_read(t->ch[owner], 0, op->len, t->hq, ^(bool done, dispatch_data_t d, int e) { sib_h(t, op, owner, done, d, e); });
+		} else {
+			uint8_t *buf = malloc(op->len);
+			if (owner != t->victim) memcpy(buf, t->ref + op->base, op->len); else memset(buf, 0x11, op->len);
+			dispatch_data_t d = dispatch_data_create(buf, op->len, NULL, DISPATCH_DATA_DESTRUCTOR_FREE);
+			if (conv) dispatch_write(t->fd_lib, d, t->hq, ^(dispatch_data_t rd, int e) { sib_h(t, op, owner, true, rd, e); });
+			else dispatch_io_write(t->ch[owner], 0, d, t->hq, ^(bool done, dispatch_data_t rd, int e) { sib_h(t, op, owner, done, rd, e); });
+			dispatch_release(d);
+		}
+		if (vf_rnd_n(r, 2)) nap_us(vf_rnd_n(r, 300));
+	}
+	nap_us(vf_rnd_range(r, 0, 2000));
+	/* stop one channel while everything is parked */
+	dispatch_io_close(t->ch[t->victim], DISPATCH_IO_STOP);
+	vf_wait_counter(&t->victim_done, nvictim, "duplex:siblings:stopped-channel-completes");
+	vf_watch_end();
+	size_t victim_moved = 0;
+	for (int i = 0; i < t->nops; i++) if (t->owner[i] == t->victim) {
+		dop_t *op = &t->ops[i];
+		if (op->err != ECANCELED) vf_violation(t->dir == K_READ ? "C14:read:stopped-channel-op-not-ECANCELED:siblings" : "C14:write:stopped-channel-op-not-ECANCELED:siblings", "operation parked on a channel that was stopped completed with error %d (%s)", op->err, sib_names[t->setup]);
+		victim_moved += t->dir == K_READ ? op->got_len : op->len - op->rest;
+	}
+	if (victim_moved) vf_violation("C14:siblings:stopped-channel-moved-bytes-on-an-idle-descriptor", "operations of the stopped channel report %zu bytes transferred although the descriptor never became ready", victim_moved);
+	/* now make the descriptor ready: the surviving channel's operations have to complete */
+	vf_watch_begin("duplex:siblings:surviving-channel-completes", 0);
+	uint8_t *peer_got = NULL; size_t peer_n = 0;
+	if (t->dir == K_READ) {
+		size_t off = 0;
+		while (off < t->ref_len) {
+			size_t chunk = vf_rnd_range(r, 1, 9000); if (chunk > t->ref_len - off) chunk = t->ref_len - off;
+			ssize_t w = write(t->fd_peer, t->ref + off, chunk);
+			if (w > 0) { off += (size_t)w; vf_progress(); }
+			if (vf_rnd_n(r, 3) == 0) nap_us(vf_rnd_n(r, 400));
+		}
+	} else {
+		size_t want = prefill + t->ref_len;
+		peer_got = malloc(want + 1);
+		fcntl(t->fd_peer, F_SETFL, fcntl(t->fd_peer, F_GETFL) | O_NONBLOCK);
+		uint64_t t0 = vf_now_ns(CLOCK_MONOTONIC);
+		while (peer_n < want) {
+			ssize_t n = read(t->fd_peer, peer_got + peer_n, want - peer_n);
+			if (n > 0) { peer_n += (size_t)n; vf_progress(); t0 = vf_now_ns(CLOCK_MONOTONIC); }
+			else { nap_us(200); if (atomic_load(&t->survivor_done) >= nsurv && vf_now_ns(CLOCK_MONOTONIC) - t0 > 300000000ull) break; }
+		}
+	}
+	vf_wait_counter(&t->survivor_done, nsurv, "duplex:siblings:surviving-channel-completes");
+	/* close what is left and wait for the cleanup handlers */
+	for (int c = 0; c < nch; c++) { if (c != t->victim) dispatch_io_close(t->ch[c], 0); dispatch_release(t->ch[c]); }
+	vf_wait_counter(&t->events, (uint64_t)nch, "duplex:siblings:cleanup-handlers");
+	vf_watch_end();
+	vf_perturb_off();
+	size_t pos = 0;
+	for (int i = 0; i < t->nops; i++) if (t->owner[i] != t->victim) {
+		dop_t *op = &t->ops[i];
+		int conv = t->setup == SIB_CONVENIENCE && t->owner[i] == 1;
+		if (atomic_load(&op->dones) != 1) { vf_violation("C14:siblings:done-count", "operation of the surviving channel saw done %u times", atomic_load(&op->dones)); continue; }
+		if (t->dir == K_READ) {
+			size_t expect = op->len; if (conv && op->got_len < expect && !op->err) expect = op->got_len;
+			if (op->err || op->got_len != expect || memcmp(op->got, t->ref + pos, expect))
+				vf_violation("C14:read:surviving-sibling-channel-disturbed", "read of %zu bytes on the channel that was not stopped: error %d, %zu bytes delivered%s (%s, trial %d)", op->len, op->err, op->got_len, op->got_len == expect ? ", wrong bytes" : "", sib_names[t->setup], idx);
+			pos += op->got_len < expect ? op->got_len : expect;
+		} else if (op->err || op->rest) {
+			vf_violation("C14:write:surviving-sibling-channel-disturbed", "write of %zu bytes on the channel that was not stopped: error %d, %zu bytes reported unwritten (%s, trial %d)", op->len, op->err, op->rest, sib_names[t->setup], idx);
+		}
+	}
+	if (t->dir == K_WRITE && (peer_n != prefill + t->ref_len || memcmp(peer_got + prefill, t->ref, t->ref_len)))
+		vf_violation("C14:write:surviving-sibling-channel-stream-differs", "the peer received %zu bytes after the %zu bytes that filled the descriptor, the surviving channel wrote %zu (%s, trial %d)", peer_n > prefill ? peer_n - prefill : 0, prefill, t->ref_len, sib_names[t->setup], idx);
+	for (int c = 0; c < nch; c++) if (atomic_load(&t->cleanups[c]) != 1) vf_violation("C14:cleanup:count:siblings", "cleanup handler of channel %d ran %u times", c, atomic_load(&t->cleanups[c]));
+	vf_count("sibling_channel_trials", 1);
+	vf_count("sibling_survivor_operations", nsurv);
+	vf_count("sibling_stopped_operations", nvictim);
+	vf_count("items", (uint64_t)t->nops);
+	vf_emit("trial", "\"n\":1,\"sig\":\"siblings-%s-%s-%d-%d-%d-%d\",\"nontrivial\":true,\"sample\":{\"trial\":%d,\"setup\":\"%s\",\"direction\":\"%s\",\"transport\":\"%s\",\"stopped_channel\":%d,\"ops\":%d,\"perturb\":\"%s\"}",
+			sib_names[t->setup], t->dir == K_READ ? "read" : "write", use_socket, t->victim, t->hq_kind, (int)nsurv, idx, sib_names[t->setup], t->dir == K_READ ? "read" : "write", use_socket ? "socketpair" : "pipe", t->victim, t->nops, t->prof.desc);
+	close(t->fd_lib); close(t->fd_peer);
+	free(peer_got); free(t->ref);
+	for (int i = 0; i < t->nops; i++) free(t->ops[i].got);
+	if (t->hq_kind != 2) dispatch_release(t->hq);
+	dispatch_release(t->cq);
+}
+
 int main(int argc, char **argv)
 {
 	vf_init(argc, argv, "h_duplex");
-	int sources = vf_opts.mode && !strcmp(vf_opts.mode, "sources");
-	for (int i = 0; i < vf_opts.trials; i++) { if (sources) run_src_trial(vf_opts.first_trial + i); else run_io_trial(vf_opts.first_trial + i); }
+	int sources = vf_opts.mode && !strcmp(vf_opts.mode, "sources"), siblings = vf_opts.mode && !strcmp(vf_opts.mode, "siblings");
+	for (int i = 0; i < vf_opts.trials; i++) { if (sources) run_src_trial(vf_opts.first_trial + i); else if (siblings) run_sib_trial(vf_opts.first_trial + i); else run_io_trial(vf_opts.first_trial + i); }
 	return vf_finish();
 }
